@@ -80,6 +80,10 @@ type bodyStream struct {
 	// request/response, and that buffer is written again while the stream is still being read
 	// (Body() on a stream that wraps this one, SetBody, AppendBody ...).
 	prefetched []byte
+	// The error that ended the reading of a chunked body other than at its end (broken chunk-size line, chunk
+	// data without CRLF, bad trailer, failed read). The position in the chunked framing is unknown from then on:
+	// neither a further Read nor skipRest may go on parsing the connection from wherever that attempt stopped.
+	chunkErr error
 }
 
 func ReadBodyWithStreaming(zr network.Reader, contentLength, maxBodySize int, dst []byte) (b []byte, err error) {
@@ -132,15 +136,21 @@ func AcquireBodyStream(b *bytebufferpool.ByteBuffer, r network.Reader, t *protoc
 	return rs
 }
 
-func (rs *bodyStream) Read(p []byte) (int, error) {
+func (rs *bodyStream) Read(p []byte) (n int, err error) {
 	defer func() {
 		if rs.reader != nil {
 			rs.reader.Release() //nolint:errcheck
+		}
+		if rs.contentLength == -1 && err != nil && !rs.chunkEOF {
+			rs.chunkErr = err
 		}
 	}()
 	if rs.contentLength == -1 {
 		if rs.chunkEOF {
 			return 0, io.EOF
+		}
+		if rs.chunkErr != nil {
+			return 0, rs.chunkErr
 		}
 
 		if rs.chunkLeft == 0 {
@@ -189,8 +199,6 @@ func (rs *bodyStream) Read(p []byte) (int, error) {
 	if rs.offset == rs.contentLength {
 		return 0, io.EOF
 	}
-	var n int
-	var err error
 	// read from the pre-read buffer
 	if int(rs.prefetchedBytes.Size()) > rs.offset {
 		n, err = rs.prefetchedBytes.Read(p)
@@ -255,6 +263,9 @@ func (rs *bodyStream) skipRest() error {
 	if rs.contentLength == -1 {
 		if rs.chunkEOF {
 			return nil
+		}
+		if rs.chunkErr != nil {
+			return rs.chunkErr
 		}
 
 		strCRLFLen := len(bytestr.StrCRLF)
@@ -404,5 +415,6 @@ func (rs *bodyStream) reset() {
 	rs.trailer = nil
 	rs.chunkEOF = false
 	rs.chunkLeft = 0
+	rs.chunkErr = nil
 	rs.contentLength = 0
 }
